@@ -381,6 +381,9 @@ func init() {
 			if err := endCommitFresh(e, cs); err != nil {
 				return err
 			}
+			if err := e.readOnlyMutationScenario(salt); err != nil {
+				return err
+			}
 			return e.emptyEverything()
 		},
 		Non: func(s *CaseStats) bool {
